@@ -109,19 +109,19 @@ pub fn child(sub: &str) -> i32 {
     }
     quiet_panics();
     let server = Server::new(router());
-    let l = server.listen(crate::util::lo0().as_str()).unwrap();
+    let l = server.listen(crate::util::lo_base0().as_str()).unwrap();
     let p1 = l.local_addr().unwrap().port();
     std::thread::spawn(move || {
         let _ = server.serve(l);
     });
     let rt = tokio::runtime::Builder::new_multi_thread().worker_threads(2).enable_all().build().unwrap();
     let (p2, p3) = rt.block_on(async {
-        let l2 = AsyncServer::listen(crate::util::lo0().as_str()).await.unwrap();
+        let l2 = AsyncServer::listen(crate::util::lo_base0().as_str()).await.unwrap();
         let p2 = l2.local_addr().unwrap().port();
         tokio::spawn(async move {
             let _ = AsyncServer::new(router()).serve(l2).await;
         });
-        let l3 = WebSocketServer::listen(crate::util::lo0().as_str()).await.unwrap();
+        let l3 = WebSocketServer::listen(crate::util::lo_base0().as_str()).await.unwrap();
         let p3 = l3.local_addr().unwrap().port();
         tokio::spawn(async move {
             let _ = WebSocketServer::new(router()).on_error(|_| {}).serve_listener(l3, "/repe").await;
